@@ -126,6 +126,8 @@ RespVectors ==
   { V("respond", c, "enc", c + d, 0, k, m) : c \in RespCfgs, d \in Offs, k \in 0..1, m \in 0..1 }
   \cup { V("respond", c, "relay", c + d, 0, 1, 1) : c \in RespCfgs, d \in Offs }
   \cup { V("respond", c, "enc", 100, 0, k, m) : c \in RespCfgs, k \in 0..1, m \in 0..1 }
+  \* relay factor at the top of its uint8 range: with at most one peer nothing may be relayed, no error
+  \cup { V("respond", c, "enc", c + d, 0, k, m) : c \in RespCfgs, d \in {0, 1}, k \in {254, 255}, m \in 0..1 }
 
 Vectors == EventVectors \cup QueryVectors \cup RespVectors
 
